@@ -268,7 +268,9 @@ impl<S: AfcState> Client<S> {
 
             #[allow(clippy::incompatible_msrv)] // clippy#12280
             let (ciphertext, tag) = rest
-                .split_at_mut_checked(rest.len() - Self::TAG_SIZE)
+                .len()
+                .checked_sub(Self::TAG_SIZE)
+                .and_then(|mid| rest.split_at_mut_checked(mid))
                 // Missing an authentication tag, so by
                 // definition we cannot authenticate the
                 // ciphertext.
